@@ -66,7 +66,9 @@ Definition check_feed (sel : N) (w : wcase) (cs : list int * (list (list int) * 
       (* classes: 1 genuine complete; 2 strict prefix (cut); 3 tampered ciphertext; 4 hostile bytes;
                   5 other label; 6 declared size beyond a cap; 7 foreign / removed key; 8 reply undeliverable;
                   9 sent in clear to a node that authenticates;
-                  10 the peer stalls with the connection held open ([closed] = the handler gave up by TCPTimeout) *)
+                  10 the peer stalls with the connection held open ([closed] = the handler gave up by TCPTimeout);
+                11 a compressed exchange, small on the wire and with node count / user-state length inside their
+                   limits, that inflates beyond the cap on decompressed data *)
       if want 13 && bi pan then mkV 302 0
       else if want 13 && negb (bi closed) then mkV 304 0
       else if want 9 && N.eqb cls 2 && effect then mkV 300 0
@@ -78,6 +80,8 @@ Definition check_feed (sel : N) (w : wcase) (cs : list int * (list (list int) * 
       else if want 16 && N.eqb cls 5 && (effect || bi wrote) then mkV 307 0
       else if want 9 && N.eqb cls 5 && effect then mkV 314 0
       else if want 13 && N.eqb cls 6 && (effect || (65536 <? ni consumed)) then mkV 305 0
+      else if want 9 && N.eqb cls 11 && effect then mkV 318 0
+      else if want 13 && N.eqb cls 11 && effect then mkV 340 0
       else if want 13 && N.eqb cls 4 && effect && negb (bi effok) then mkV 303 0
       else
         (* model: when the encrypted layer does not yield a message there must be no effect *)
@@ -120,20 +124,46 @@ Definition check_exchange (sel : N) (cs : list int * (list (list int) * list (li
 
 (* ---- kind 15: AddLabelHeaderToStream + payload written in fragments, then RemoveLabelHeaderFromStream and the
         rest read with buffers of every size.  ops: the fragments; obs: [[error]; label returned; bytes read] ---- *)
+(* one stream: [mon] is the code reported when what came back, with its header put in front again, is not the
+   stream that was sent *)
+Definition check_one_ls (want16 : bool) (mon : N) (frags : list bytes) (e : int) (lab got : list int) : verdict :=
+  match remove_label_stream frags with
+  | Ok (l, pc) =>
+      if bi e then mkV 65 0
+      (* what came back, with its header put in front again, is the stream that was sent *)
+      else if want16 && negb (beq (label_header (bytes_of lab) ++ bytes_of got) (concat frags)) then mkV mon 0
+      else if beq l (bytes_of lab) && beq (drain pc) (bytes_of got) then vok else mkV 65 0
+  | Err _ => if bi e then vok else mkV 65 0
+  | Panic => mkV 65 0
+  end.
+
 Definition check_labelstream (sel : N) (cs : list int * (list (list int) * list (list int))) : verdict :=
   match snd (snd cs) with
-  | [[e]; lab; got] =>
-      let frags := map bytes_of (fst (snd cs)) in
-      let want16 := N.eqb sel 0 || N.eqb sel 16 in
-      match remove_label_stream frags with
-      | Ok (l, pc) =>
-          if bi e then mkV 65 0
-          (* what came back, with its header put in front again, is the stream that was sent *)
-          else if want16 && negb (beq (label_header (bytes_of lab) ++ bytes_of got) (concat frags)) then mkV 309 0
-          else if beq l (bytes_of lab) && beq (drain pc) (bytes_of got) then vok else mkV 65 0
-      | Err _ => if bi e then vok else mkV 65 0
-      | Panic => mkV 65 0
-      end
+  | [[e]; lab; got] => check_one_ls (N.eqb sel 0 || N.eqb sel 16) 309 (map bytes_of (fst (snd cs))) e lab got
+  | _ => mkV 1 0
+  end.
+
+(* ---- kind 16: several labelled streams open at once: the header is removed from each in turn, only then the rest
+        of each is read (reads interleaved).  ops: [stream index; fragment bytes...]; obs: per stream [error], label
+        returned, bytes read.  Every stream is judged on its own, exactly as in kind 15: what the others carried must
+        not show (step = index of the offending stream) ---- *)
+Definition frags_of (i : N) (ops : list (list int)) : list bytes :=
+  flat_map (fun v => match v with s :: b => if N.eqb (ni s) i then [bytes_of b] else [] | [] => [] end) ops.
+
+Fixpoint check_ls_multi (want16 : bool) (ops : list (list int)) (i : N) (obs : list (list int)) : verdict :=
+  match obs with
+  | [] => vok
+  | [e] :: lab :: got :: obs' =>
+      let v := check_one_ls want16 345 (frags_of i ops) e lab got in
+      if N.eqb (vcode v) 0 then check_ls_multi want16 ops (i + 1) obs' else mkV (vcode v) i
+  | _ => mkV 1 0
+  end.
+
+Definition check_labelstreams (sel : N) (cs : list int * (list (list int) * list (list int))) : verdict :=
+  match fst cs with
+  | [_; k] =>
+      if negb (N.eqb (N.of_nat (length (snd (snd cs)))) (3 * ni k)) then mkV 1 0
+      else check_ls_multi (N.eqb sel 0 || N.eqb sel 16) (fst (snd cs)) 0 (snd (snd cs))
   | _ => mkV 1 0
   end.
 
@@ -144,6 +174,7 @@ Definition check_any (sel : N) (cs : list int * (list (list int) * list (list in
       else if Uint63.eqb kind 13 then check_join sel cs
       else if Uint63.eqb kind 14 then check_exchange sel cs
       else if Uint63.eqb kind 15 then check_labelstream sel cs
+      else if Uint63.eqb kind 16 then check_labelstreams sel cs
       else match dec_cfg (fst cs) with
            | Some w => if Uint63.eqb kind 11 then check_frame sel w cs else check_feed sel w cs
            | None => mkV 1 0
